@@ -161,9 +161,13 @@ fn run_search(v: &Val) -> Val {
 
     // 3. summary printer kinds
     let mut sums = vec![];
-    for kind in [SummaryKind::Count, SummaryKind::PathWithMatch, SummaryKind::PathWithoutMatch] {
+    for (idx, kind) in [SummaryKind::Count, SummaryKind::PathWithMatch, SummaryKind::PathWithoutMatch, SummaryKind::Count]
+        .into_iter()
+        .enumerate()
+    {
         let mut b = SummaryBuilder::new();
-        b.kind(kind.clone()).max_matches(max_matches).exclude_zero(true).path_terminator(pterm);
+        // the fourth run is -c --include-zero
+        b.kind(kind.clone()).max_matches(max_matches).exclude_zero(idx != 3).path_terminator(pterm);
         let mut printer = b.build_no_color(vec![]);
         {
             let pstr = path.as_ref().map(|p| String::from_utf8_lossy(p).into_owned());
